@@ -47,6 +47,10 @@ def make_agg(spec: dict, m: int, dtype=torch.float64):
         if leak == "rand":
             g = torch.Generator().manual_seed(spec.get("wseed", 0))
             leak_t = torch.rand(m, generator=g, dtype=torch.float64).to(dtype)
+            if spec.get("leak_dtype") == "other":
+                # a leak vector configured in ANOTHER floating dtype than the matrices (e.g. built from numpy): values exactly
+                # representable in both (multiples of 1/8), so that only the dtype of the result can be affected
+                leak_t = (torch.round(leak_t.double() * 8) / 8).to(torch.float64 if dtype == torch.float32 else torch.float32)
         elif leak is None:
             leak_t = None
         else:
@@ -126,7 +130,9 @@ def gen_matrix(spec: dict) -> torch.Tensor:
     m, n = spec["m"], spec["n"]
     kind = spec.get("kind", "gauss")
     dt = torch.float64
-    if kind == "gauss":
+    if kind == "offset":  # a large common component: rows = ratio * c + spread (norms >> mutual distances)
+        M = torch.randn(1, n, generator=g, dtype=dt) * float(spec.get("ratio", 1e4)) + torch.randn(m, n, generator=g, dtype=dt)
+    elif kind == "gauss":
         M = torch.randn(m, n, generator=g, dtype=dt)
     elif kind == "lowrank":
         r = max(1, min(spec.get("rank", 1), m, n))
